@@ -7,6 +7,7 @@ import (
 	"os"
 	"sort"
 	"strconv"
+	"strings"
 	"time"
 )
 
@@ -32,7 +33,19 @@ func main() {
 	dump := flag.String("dump", "", "debug: dump undischarged obligations of a scope")
 	list := flag.Bool("list", false, "print every obligation")
 	writeAnchors := flag.String("write-anchors", "", "maintenance: run every property once and write the receiver/signature of every anchor function to this file")
+	writeNamesTo := flag.String("write-names", "", "maintenance: write the inventory of declared names (types, fields, vars, functions, locals) of the tree to this file")
 	flag.Parse()
+	if *writeNamesTo != "" {
+		c, err := LoadOverlay(*repo, BuildConfig{"linux", "amd64"}, nil)
+		if err == nil {
+			err = writeNames(c, *writeNamesTo)
+		}
+		if err != nil {
+			fmt.Fprintln(os.Stderr, err)
+			os.Exit(2)
+		}
+		return
+	}
 	if *writeAnchors != "" {
 		c, err := Load(*repo, BuildConfig{"linux", "amd64"})
 		if err != nil {
@@ -114,6 +127,9 @@ func main() {
 		}
 		if first == nil {
 			first = c
+		}
+		if len(c.RenameNotes) > 0 {
+			r.Notes = append(r.Notes, bc.String()+": "+strings.Join(c.RenameNotes, "; "))
 		}
 		start := len(r.Obs)
 		func() {
